@@ -385,11 +385,17 @@ Proof.
   destruct (dec_varint rest) as [[[raw n] rest1]|]; [|reflexivity].
   cbv zeta.
   destruct (s32 (u64 raw / 8) =? 1)%Z.
-  { destruct (dec_scalar kk rest1) as [[v r]|]; [|reflexivity]. apply IH. }
+  { destruct (dec_scalar kk rest1) as [[v r]|]; [|reflexivity].
+    destruct (k - (Z.of_nat (length rest) - Z.of_nat (length r)) <? 0)%Z; [reflexivity|]. apply IH. }
   destruct (s32 (u64 raw / 8) =? 2)%Z.
-  { rewrite (dec_item_strip ct cf t value rest1 Hrel).
-    destruct (dec_item cf t value rest1) as [[v r]| | |]; try reflexivity.
-    cbn [out_map strip_pair fst snd]. apply IH. }
+  { destruct t as [kd|m].
+    - destruct (dec_scalar kd rest1) as [[v r]|] eqn:Ed; [|reflexivity].
+      destruct (k - (Z.of_nat (length rest) - Z.of_nat (length r)) <? 0)%Z; [reflexivity|].
+      apply dec_scalar_strip in Ed. rewrite <- Ed at 1. apply IH.
+    - destruct (take_len rest1) as [[payload r]|]; [|reflexivity].
+      destruct (k - (Z.of_nat (length rest) - Z.of_nat (length r)) <? 0)%Z; [reflexivity|].
+      rewrite Hrel. destruct (cf m value payload) as [v| | |]; try reflexivity.
+      cbn [out_map]. apply IH. }
   destruct (Skip rest) as [skippy| | |]; try reflexivity.
   destruct (k <? skippy)%Z; [reflexivity|]. apply IH.
 Qed.
